@@ -452,24 +452,77 @@ def r4_multiword_parts(ctx, rule):
     i = U(loops[0].target)
     ok = True
     facts = {'returns': [U(r.value) for r in rets]}
-    allowed = {'None', '[%s[0:%s], %s[%s:]]' % (s, i, s, i), '[%s[:%s], %s[%s:]]' % (s, i, s, i), 'results',
-               # the head put in front of the recursive result by concatenation instead of results.insert(0, head)
-               '[%s[0:%s]] + results' % (s, i), '[%s[:%s]] + results' % (s, i)}
+    mod = ctx.repo.modules[q.partition('::')[0]]
+    heads = {'%s[0:%s]' % (s, i), '%s[:%s]' % (s, i)}
+    tail = '%s[%s:]' % (s, i)
+    # the names that hold the parsing of the rest (bound from the recursive call on s[i:])
+    rec = {}
+    for st in walk_local(fn):
+        if isinstance(st, ast.Assign) and len(st.targets) == 1 and isinstance(st.targets[0], ast.Name) and isinstance(st.value, ast.Call) \
+                and call_name(st.value) == 'self._identify_multi':
+            rec[st.targets[0].id] = U(st.value.args[0]) if st.value.args else None
+    for nm, arg in rec.items():
+        if arg != tail:
+            ok = False
+            ctx.bad(rule, q, 'recursive call on ' + str(arg), 'the rest to be parsed is s[i:]', facts, fn)
+    prepends = {}
+    for c in calls_in(fn):
+        if isinstance(c.func, ast.Attribute) and isinstance(c.func.value, ast.Name) and c.func.value.id in rec:
+            if c.func.attr == 'insert' and len(c.args) == 2 and const(c.args[0]) == 0 and U(c.args[1]) in heads:
+                prepends[c.func.value.id] = c
+            else:
+                ok = False
+                ctx.bad(rule, q, 'recursive result changed by ' + U(c)[:60], 'the first part s[0:i] must be put IN FRONT of the parsing of s[i:] '
+                        '(the parts are emitted in this order as adjacent alpha segments)', facts, c)
     for r in rets:
-        if U(r.value) not in allowed:
-            ok = False
-            ctx.bad(rule, q, 'returns ' + U(r.value), 'the parts must be the complementary slices s[0:i], s[i:] (recursively)', facts, r)
-    txt = U(fn)
-    if 'results' in facts['returns']:
-        if 'results = self._identify_multi(%s[%s:])' % (s, i) not in txt or 'results.insert(0, %s[0:%s])' % (s, i) not in txt:
-            ok = False
-            ctx.bad(rule, q, 'recursive case', 'the first part s[0:i] must be prepended to the parsing of s[i:]', facts, fn)
+        v = r.value
+        t = U(v) if v is not None else 'None'
+        if t == 'None':
+            continue
+        if isinstance(v, ast.List) and len(v.elts) == 2 and U(v.elts[0]) in heads and U(v.elts[1]) == tail:
+            continue
+        if isinstance(v, ast.Name) and v.id in rec:
+            if v.id not in prepends:
+                ok = False
+                ctx.bad(rule, q, 'recursive case returns %s without the first part' % v.id, 'the first part s[0:i] must be prepended to the parsing of s[i:]', facts, r)
+            continue
+        if isinstance(v, ast.BinOp) and isinstance(v.op, ast.Add) and isinstance(v.left, ast.List) and len(v.left.elts) == 1 \
+                and U(v.left.elts[0]) in heads and isinstance(v.right, ast.Name) and v.right.id in rec and v.right.id not in prepends:
+            continue
+        ok = False
+        mentions = {x.id for x in ast.walk(v) if isinstance(x, ast.Name)} if v is not None else set()
+        if isinstance(v, (ast.List, ast.BinOp)) and (mentions & (set(rec) | {s})):
+            ctx.bad(rule, q, 'returns ' + t, 'the parts must be the complementary slices s[0:i], s[i:] (recursively), first part first', facts, r)
+        else:
+            ctx.unk(rule, q, 'return value %s of the multi-word split is not of a form this rule knows' % t[:60], facts)
     # both parts seen at least threshold times
-    th = [n for n in walk_local(fn) if isinstance(n, ast.Compare) and 'self._get_count(' in U(n.left)]
+    th = [n for n in walk_local(fn) if isinstance(n, ast.Compare) and len(n.ops) == 1
+          and ('self._get_count(' in U(n.left) or 'self._get_count(' in U(n.comparators[0]))]
     for c in th:
-        if not (len(c.ops) == 1 and isinstance(c.ops[0], ast.GtE) and U(c.comparators[0]) == 'self.threshold'):
+        cnt_left = 'self._get_count(' in U(c.left)
+        other = c.comparators[0] if cnt_left else c.left
+        op = type(c.ops[0])
+        if not cnt_left:
+            op = {ast.Lt: ast.Gt, ast.Gt: ast.Lt, ast.LtE: ast.GtE, ast.GtE: ast.LtE}.get(op, op)
+        par = mod.parents.get(id(c))
+        negated = isinstance(par, ast.UnaryOp) and isinstance(par.op, ast.Not)
+        if negated:
+            op = {ast.Lt: ast.GtE, ast.GtE: ast.Lt, ast.Gt: ast.LtE, ast.LtE: ast.Gt}.get(op, op)     # counts are integers: not (a < b) == a >= b
+        # the test may also be the guard that SKIPS a split (count < threshold -> continue): same boundary
+        conds_skip = False
+        stp = par
+        while stp is not None and not isinstance(stp, ast.stmt):
+            stp = mod.parents.get(id(stp))
+        if isinstance(stp, ast.If) and stp.body and isinstance(stp.body[-1], (ast.Continue, ast.Return)) and not stp.orelse \
+                and (not isinstance(stp.body[-1], ast.Return) or stp.body[-1].value is None or U(stp.body[-1].value) == 'None'):
+            conds_skip = True
+        want = ast.Lt if conds_skip else ast.GtE
+        if U(other) != 'self.threshold':
             ok = False
-            ctx.bad(rule, q, 'threshold test ' + U(c), 'a part counts as a base word only if it was seen at least threshold times', facts, c)
+            ctx.unk(rule, q, 'count compared with %s' % U(other)[:40], facts)
+        elif op is not want:
+            ok = False
+            ctx.bad(rule, q, 'threshold test ' + U(par if negated else c), 'a part counts as a base word only if it was seen at least threshold times', facts, c)
     if len(th) < 2:
         ok = False
         ctx.bad(rule, q, '%d threshold tests' % len(th), 'both parts must be tested', facts, fn)
